@@ -22,8 +22,12 @@ class Unsupported(Exception):
     pass
 
 
-# a number is  k + cF*F + cR*rem  (F: frontier, rem = len(T) - F):  abs = k, rel = F + k, len = len(T) + k, rem = len(T) - F + k
-KIND = {'abs': (0, 0), 'rel': (1, 0), 'len': (1, 1), 'rem': (0, 1)}
+# a number is  k + cB*B + cF*F + cR*rem   (B: position of the start of the analysed text region inside its buffer — 0, or unknown >= 0
+# when the scanner is started at an arbitrary offset; F: characters of the region fixed so far; rem: characters of the region not
+# yet fixed).  abs = k (a plain number), pos = B + k (a position), rel = B + F + k (frontier-relative position), len = B + F + rem + k
+# (end-relative position), dist = F + k, rem = rem + k, tot = F + rem + k (lengths), rpos = B + rem + k (mirror mode: position counted
+# from the unread end).
+KIND = {'abs': (0, 0, 0), 'pos': (1, 0, 0), 'rel': (1, 1, 0), 'len': (1, 1, 1), 'dist': (0, 1, 0), 'rem': (0, 0, 1), 'tot': (0, 1, 1), 'rpos': (1, 0, 1)}
 KIND_OF = {v: k for k, v in KIND.items()}
 
 
@@ -44,7 +48,7 @@ def some(v):
 def shift(v):
     if isinstance(v, tuple):
         if v and v[0] == 'n':
-            cF, cR = KIND[v[1]]
+            _, cF, cR = KIND[v[1]]
             return ('n', v[1], v[2] - cF + cR) if cF != cR else v
         if v and v[0] == 'chr':
             return ('chr', v[1] - 1)
@@ -55,7 +59,13 @@ def shift(v):
 
 
 class Machine:
-    def __init__(self, bodies, spec, entry, entry_args, inline, claim, ascii_only=True):
+    def __init__(self, bodies, spec, entry, entry_args, inline, claim, param=False, mirror=False, extra_summary=None):
+        """param: the region starts at an unknown offset B of its buffer (translation invariance is checked, not assumed);
+        mirror: the region is read BACKWARDS from its end (the specification automaton is that of the reversed region); positions
+        are then counted from the unread end (kind rpos) and a read at position p looks at region index (rem - 1) - (p - B)."""
+        self.param = param
+        self.mirror = mirror
+        self.extra_summary = extra_summary
         self.bodies = bodies
         self.spec = spec
         self.entry = entry
@@ -75,6 +85,7 @@ class Machine:
             locs[i + 1] = a
         h0 = frozenset(sp.closure({(sp.d.start, ())}))
         st0 = (((self.entry, 0, 0, tuple(locs), None, None),), 0, (0, None), (), h0)
+        st0 = self.canon(st0)
         self.parent = {st0: None}
         self.edges = []
         dq = deque([st0])
@@ -184,7 +195,8 @@ class Machine:
         nrem = (max(rem[0] - 1, 0), None if rem[1] is None else rem[1] - 1)
         for nh, cs in groups.items():
             nh2 = frozenset(sp.closure(nh))
-            ns = (nframes, min(F + 1, BIG), nrem, (frozenset(cs),) + hist[:HW - 1], nh2)
+            nF = (F + 1 if F < CAP else ('ge', CAP + 1)) if isinstance(F, int) else F
+            ns = (nframes, nF, nrem, (frozenset(cs),) + hist[:HW - 1], nh2)
             ns = self.at_end_filter(ns)
             if ns is not None:
                 out.append((frozenset(cs), ns))
@@ -208,68 +220,118 @@ class Machine:
         return self.at_end_filter((frames, F, (nlo, nhi), hist, hyps))
 
     # ------------------------------------------------------------------ numbers
+    def bounds(self, st):
+        """(lo, hi) of B, F, rem  (hi None = unbounded)"""
+        F, rem = st[1], st[2]
+        fb = (F, F) if isinstance(F, int) else (F[1], None)
+        bb = (0, None) if self.param else (0, 0)
+        return bb, fb, rem
+
     def sign(self, st, a, b):
-        """outcomes [(sign of a - b, state')]; a - b = c + cF*F + cR*rem"""
+        """outcomes [(sign of a - b, state')];  a - b = c + cB*B + cF*F + cR*rem"""
         if a[0] != 'n' or b[0] != 'n':
             raise Unsupported(f'comparison of {a[0]} and {b[0]}')
-        F, rem = st[1], st[2]
+        ka, kb = KIND[a[1]], KIND[b[1]]
         c = a[2] - b[2]
-        cF = KIND[a[1]][0] - KIND[b[1]][0]
-        cR = KIND[a[1]][1] - KIND[b[1]][1]
-        if abs(cF) > 1 or abs(cR) > 1:
-            raise Unsupported('comparison of values of incompatible kinds')
-        if cF != 0 and F <= CAP:
-            c += cF * F
-            cF = 0
-        if cF != 0:
-            # F >= BIG, unbounded above
-            INF = float('inf')
-            rlo, rhi = rem[0], (INF if rem[1] is None else rem[1])
-            if cF > 0:
-                dmin = c + BIG + (rlo if cR > 0 else -rhi if cR < 0 else 0)
-                if dmin > 0:
-                    return [(1, st)]
-            else:
-                dmax = c - BIG + (rhi if cR > 0 else -rlo if cR < 0 else 0)
-                if dmax < 0:
-                    return [(-1, st)]
-            raise Unsupported('comparison depends on a position beyond the tracked prefix')
-        if cR == 0:
+        co = [ka[i] - kb[i] for i in range(3)]
+        bnd = self.bounds(st)
+        # fold the symbols whose value is exact
+        for i in (0, 1, 2):
+            lo, hi = bnd[i]
+            if co[i] != 0 and hi is not None and lo == hi:
+                c += co[i] * lo
+                co[i] = 0
+        if co == [0, 0, 0]:
             return [((c > 0) - (c < 0), st)]
-        t = -c * cR          # a - b == 0  <=>  rem == t ;  sign(a - b) = cR * sign(rem - t)
-        outs = []
-        for sg, lo, hi in ((-cR, 0, t - 1), (0, t, t), (cR, t + 1, None)):
-            if hi is not None and hi < 0:
+        INF = float('inf')
+        dmin = dmax = c
+        for i in (0, 1, 2):
+            if co[i] == 0:
                 continue
-            ns = self.with_rem(st, max(lo, 0), hi)
-            if ns is not None:
-                outs.append((sg, ns))
-        return outs
+            lo, hi = bnd[i]
+            hi = INF if hi is None else hi
+            x, y = co[i] * lo, co[i] * hi
+            dmin += min(x, y)
+            dmax += max(x, y)
+        if dmin > 0:
+            return [(1, st)]
+        if dmax < 0:
+            return [(-1, st)]
+        if dmin == dmax == 0:
+            return [(0, st)]
+        if co[0] == 0 and co[1] == 0 and abs(co[2]) == 1:
+            cR = co[2]
+            t = -c * cR          # a - b == 0  <=>  rem == t ;  sign(a - b) = cR * sign(rem - t)
+            outs = []
+            for sg, lo, hi in ((-cR, 0, t - 1), (0, t, t), (cR, t + 1, None)):
+                if hi is not None and hi < 0:
+                    continue
+                ns = self.with_rem(st, max(lo, 0), hi)
+                if ns is not None:
+                    outs.append((sg, ns))
+            return outs
+        if co[0] != 0:
+            raise Unsupported('comparison of a position with a plain number in a scanner that is started at an arbitrary offset (not translation invariant)')
+        raise Unsupported('comparison depends on a position beyond the tracked prefix')
 
     def add(self, a, b, sgn=1):
         if a[0] != 'n' or b[0] != 'n':
             raise Unsupported(f'arithmetic on {a[0]} and {b[0]}')
         ca, cb = KIND[a[1]], KIND[b[1]]
-        c = (ca[0] + sgn * cb[0], ca[1] + sgn * cb[1])
+        c = tuple(ca[i] + sgn * cb[i] for i in range(3))
         if c not in KIND_OF:
-            raise Unsupported('arithmetic on positions that does not give a position or a length')
+            raise Unsupported('arithmetic on positions that gives neither a position nor a length')
         return N(KIND_OF[c], a[2] + sgn * b[2])
 
     def sub(self, a, b):
         return self.add(a, b, -1)
 
+    def length(self, sl):
+        n = self.sub(sl[2], sl[1])
+        return ('lb', n) if self.mirror and sl[2] == N('len', 0) and sl[1] == A0 else n
+
     def offset(self, st, num):
+        """index of the character at position `num`, relative to the frontier (0 = the next character to be fixed, -1 = the last fixed)"""
         if num[0] != 'n':
             raise Unsupported(f'{num[0]} used as a position')
-        if num[1] == 'rel':
-            return num[2]
-        if num[1] == 'abs':
-            if st[1] <= CAP:
-                return num[2] - st[1]
-            raise Unsupported('absolute position used beyond the tracked prefix')
-        if num[1] == 'len' and st[2][1] is not None and st[2][0] == st[2][1]:
-            return st[2][0] + num[2]
-        raise Unsupported('end-relative value used as an index')
+        cB, cF, cR = KIND[num[1]]
+        k = num[2]
+        bnd = self.bounds(st)
+        if not self.mirror:
+            want = (1, 1, 0)       # off = value - (B + F)
+            co = [cB - 1, cF - 1, cR]
+            base = k
+        else:
+            # region index r = (tot - 1) - (value - B); off = r - F = rem - 1 - value + B
+            co = [1 - cB, -cF, 1 - cR]
+            base = -1 - k
+        for i in (0, 1, 2):
+            if co[i] != 0:
+                lo, hi = bnd[i]
+                if hi is None or lo != hi:
+                    raise Unsupported('a value that is not a position of the text is used as an index' if i == 0 or not self.mirror else 'index whose distance to the frontier is not known')
+                base += co[i] * lo
+        return base if not self.mirror else base
+
+    def normalize(self, v, st):
+        """mirror mode: while F is exact, express positions without F (B + F + rem + k  ->  B + rem + (k + F)) so that the loop
+        variable of a backward scan has ONE representation"""
+        F = st[1]
+        if not self.mirror or not isinstance(F, int):
+            return v
+
+        def f(x):
+            if isinstance(x, tuple):
+                if x and x[0] == 'n':
+                    cB, cF, cR = KIND[x[1]]
+                    if cF == 1:
+                        return ('n', KIND_OF[(cB, 0, cR)], x[2] + F)
+                    return x
+                if x and x[0] == 'lit':
+                    return x
+                return tuple(f(y) for y in x)
+            return x
+        return f(v)
 
     def char_at(self, st, num):
         """offset (< 0) of the character at position `num` relative to the frontier, or a Retry when it still has to be fixed"""
@@ -301,7 +363,11 @@ class Machine:
     # ------------------------------------------------------------------ stepping
     def step(self, st):
         out = []
-        for item in self.step1(st):
+        try:
+            items = self.step1(st)
+        except RetryExc as e:
+            items = [e.retry]
+        for item in items:
             if isinstance(item, Retry):
                 # the statement needs the next character: fix it (one successor per group of byte classes) and re-execute the statement
                 out += [(lab, self.canon(ns, item.keep)) for lab, ns in self.consume(item.state)]
@@ -322,10 +388,12 @@ class Machine:
                     need.add(-v[1] - 1)
                 elif v[0] == 'iter':
                     # an iterator that lags behind the frontier will read those characters again
-                    if v[3][1] == 'rel' and v[3][2] < 0:
-                        low[0] = min(low[0], v[3][2])
-                    elif v[3][1] == 'abs' and F <= CAP and v[3][2] - F < 0:
-                        low[0] = min(low[0], v[3][2] - F)
+                    try:
+                        o = self.offset(st, v[3])
+                    except Unsupported:
+                        o = 0
+                    if o < 0:
+                        low[0] = min(low[0], o)
                 elif v[0] in ('n', 'lit', 'str'):
                     return
                 else:
@@ -337,7 +405,7 @@ class Machine:
         nh = tuple(h if (i in need or i < -low[0]) else None for i, h in enumerate(hist))
         while nh and nh[-1] is None:
             nh = nh[:-1]
-        return (frames, F, rem, nh, hyps)
+        return (self.normalize(frames, st), F, rem, nh, hyps)
 
     def set_top(self, st, locs, bb, si):
         frames = st[0]
@@ -363,6 +431,15 @@ class Machine:
                     raise Unsupported(f'field of {v[0]}')
             elif k == 'downcast':
                 pass
+            elif k == 'index':
+                if not (isinstance(v, tuple) and v and v[0] == 'str'):
+                    raise Unsupported('indexing of something that is not the text')
+                idx = locs[pr['local']]
+                # MIR asserts idx < len before the access; positions are relative to the slice start
+                o = self.char_at(st, self.add(v[1], idx) if v[1] != A0 else idx)
+                if isinstance(o, Retry):
+                    raise RetryExc(o)
+                v = ('chr', o)
             else:
                 raise Unsupported(f'projection {k}')
         return v
@@ -524,9 +601,25 @@ class Machine:
             if op in ('Lt', 'Le', 'Gt', 'Ge', 'Eq', 'Ne'):
                 if a[0] == 'chr' or b[0] == 'chr':
                     c, k2 = (a, b) if a[0] == 'chr' else (b, a)
-                    if k2[0] != 'chrconst' or op not in ('Eq', 'Ne'):
+                    if not (k2[0] == 'chrconst' or (k2[0] == 'n' and k2[1] == 'abs')) or op not in ('Eq', 'Ne'):
                         raise Unsupported('character comparison')
-                    return [(N('abs', int(r if op == 'Eq' else not r)), s2) for r, s2 in self.split(st, c[1], lambda lo, hi: self._one(lo, hi, k2[1]))]
+                    cv = k2[1] if k2[0] == 'chrconst' else k2[2]
+                    return [(N('abs', int(r if op == 'Eq' else not r)), s2) for r, s2 in self.split(st, c[1], lambda lo, hi: self._one(lo, hi, cv))]
+                if a[0] == 'lb' or b[0] == 'lb':
+                    # the unmodelled end of the buffer (mirror mode): only a bounds test that holds against the lower bound is meaningful
+                    if b[0] == 'lb' and op in ('Lt', 'Le'):
+                        x, y = a, b[1]
+                    elif a[0] == 'lb' and op in ('Gt', 'Ge'):
+                        x, y = b, a[1]
+                    else:
+                        raise Unsupported('the length of the buffer is used for something else than a bounds test')
+                    outs = []
+                    for sg, s2 in self.sign(st, x, y):
+                        if sg < 0 or (sg == 0 and op in ('Le', 'Ge')):
+                            outs.append((A1, s2))
+                        else:
+                            raise Unsupported('bounds test against the part of the buffer that is not modelled')
+                    return outs
                 f = {'Lt': lambda s: s < 0, 'Le': lambda s: s <= 0, 'Gt': lambda s: s > 0, 'Ge': lambda s: s >= 0, 'Eq': lambda s: s == 0, 'Ne': lambda s: s != 0}[op]
                 return [(N('abs', int(f(sg))), s2) for sg, s2 in self.sign(st, a, b)]
             if op in ('BitAnd', 'BitOr') and a[0] == 'n' and b[0] == 'n' and a[1] == b[1] == 'abs':
@@ -536,6 +629,8 @@ class Machine:
             a = self.operand(st, locs, rv['a'])
             if rv['op'] == 'Not' and a[0] == 'n' and a[1] == 'abs':
                 return [(N('abs', 1 - a[2]), st)]
+            if rv['op'] == 'PtrMetadata' and a[0] == 'str':
+                return [(self.length(a), st)]
             raise Unsupported('unop ' + rv['op'])
         if k == 'cast':
             return [(self.operand(st, locs, rv['op']), st)]
@@ -555,6 +650,18 @@ class Machine:
             raise Unsupported('indirect call')
         base = name.rsplit('::', 1)[-1]
         a0 = args[0] if args else None
+        if self.extra_summary is not None:
+            r = self.extra_summary(self, st, locs, name, args)
+            if r is not None:
+                return r
+        if base == 'as_bytes' and isinstance(a0, tuple) and a0 and a0[0] == 'str':
+            return [(a0, st)]
+        if (name.endswith('<impl [T]>::len') or name.endswith('<impl [u8]>::len')) and a0[0] == 'str':
+            return [(self.length(a0), st)]
+        if name.endswith('<impl [T]>::is_empty') and a0[0] == 'str':
+            return [(N('abs', int(sg == 0)), s2) for sg, s2 in self.sign(st, a0[2], a0[1])]
+        if base == 'new_unchecked' and isinstance(a0, tuple) and a0 and a0[0] == 'str' and len(args) == 1:
+            return [(a0, st)]
         if name.endswith('Deref>::deref') or name.endswith('::as_str') or name.endswith('AsRef<str>>::as_ref') or name.endswith('::as_ref'):
             v = a0
             while isinstance(v, tuple) and v and v[0] == 'adt' and len(v[3]) == 1:
@@ -598,7 +705,7 @@ class Machine:
             return [(('adt', 'ControlFlow', 1, (NONE,)), st)]
         if 'FromResidual' in name and name.endswith('from_residual'):
             return [(NONE, st)]
-        if name.endswith('for str>::index') and a0[0] == 'str' and args[1][0] == 'adt':
+        if (name.endswith('for str>::index') or name.endswith('Index<I> for [T]>::index')) and a0[0] == 'str' and args[1][0] == 'adt':
             rg = args[1]
             kind = rg[1].rsplit('::', 1)[-1]
             lo = self.add(a0[1], rg[3][0]) if kind in ('Range', 'RangeFrom') else a0[1]
@@ -713,6 +820,11 @@ class Machine:
                     res.append((A0, s2))
         return res
 
+
+
+class RetryExc(Exception):
+    def __init__(self, retry):
+        self.retry = retry
 
 
 class Retry:
